@@ -46,7 +46,7 @@ R = {
  ("network/src/mux/mod.rs","Mux::run"): {0:"process_inbound_frames loops forever: Ok(()) is never returned (return type carries no break path)"},
  ("network/src/mux/mod.rs","spawn_streams"): {0:"StreamKind argument is one of the two constants passed by run()"},
  ("network/src/mux/reusable_stream.rs","ReusableStream::run"): {0:"StreamKind argument is one of the two constants"},
- ("network/src/mux/transient_stream.rs","read_exact"): {50:"DATA frames are always built with data: Some(..) in process_inbound_frames", 59:"only OPEN/CLOSE/DATA frames are forwarded by process_inbound_frames (the bad-kind case is rejected there first)"},
+ ("network/src/mux/transient_stream.rs","read_exact"): {50:"DATA frames are always built with data: Some(..) in process_inbound_frames", 59:"only OPEN/CLOSE/DATA frames are forwarded by process_inbound_frames (the bad-kind case is rejected there first) - guard obligation C14.4, run with C10"},
  ("network/src/mux/transient_stream.rs","write_all"): {0:"offset < buf.len() loop guard; push returns at most the remaining length"},
  ("network/src/noise/bytes.rs","Buffer::"): {0:"Buffer invariant begin <= end <= inner.len() maintained by every method (C13.5 conformance); callers pass n <= capacity()/len()"},
  ("network/src/noise/stream.rs","client_handshake"): {0:"snow builder with a constant, valid pattern string"},
@@ -96,7 +96,7 @@ R = {
  ("roles/src/validator/messages/schedule.rs","subquorum_threshold"): {0:"3f <= 3(n-1)/5 < n <= u64::MAX (C07 lemma)"},
  ("roles/src/validator/messages/v2/consensus.rs","bitand_assign"): {0:"guard obligation: both operands have schedule.len() bits (length checks in TimeoutQC::verify/add precede the use)"},
  ("roles/src/validator/messages/v2/consensus.rs","bitor_assign"): {0:"guard obligation: both operands have schedule.len() bits (length checks in TimeoutQC::verify/add precede the use)"},
- ("roles/src/validator/messages/v2/consensus.rs","Signers::weight"): {0:"guard obligation C10.2: every caller checks signers.len() == schedule.len() first (CommitQC::verify, TimeoutQC::verify) or builds Signers with Signers::new(schedule.len())"},
+ ("roles/src/validator/messages/v2/consensus.rs","Signers::weight"): {0:"guard obligation C04.1/C04.2 (run with C10): every caller checks signers.len() == schedule.len() first (CommitQC::verify, TimeoutQC::verify) or builds Signers with Signers::new(schedule.len())"},
  ("roles/src/validator/messages/v2/leader_proposal.rs","get_implied_block"): {0:"unwraps on match arms guarded by is_some()/Some patterns of the same high_vote/high_qc results (C02.1 table)"},
  ("roles/src/validator/messages/v2/replica_commit.rs","CommitQC::add"): {0:"index returned by Schedule::index(signer) (< schedule.len() == signers.len(), QC created with Signers::new(schedule.len()))"},
  ("roles/src/validator/messages/v2/replica_commit.rs","CommitQC::verify"): {0:"after the signers.len() == schedule.len() check; index enumerates schedule keys"},
